@@ -383,7 +383,7 @@ func c18Run(c *lib.Ctx) {
 	// monitor
 	depth := 3
 	if c.Thorough() {
-		depth = 4
+		depth = 5
 	}
 	for _, s := range uSequences(len(c18MonitorOps), depth) {
 		idx++
@@ -402,7 +402,7 @@ func c18Run(c *lib.Ctx) {
 	// accounting
 	adepth := 4
 	if c.Thorough() {
-		adepth = 5
+		adepth = 6
 	}
 	for _, s := range uSequences(len(c18AcctOps), adepth) {
 		if len(s) < adepth {
@@ -450,7 +450,7 @@ func c18Run(c *lib.Ctx) {
 func init() {
 	lib.Register(&lib.Check{
 		ID: "C18", Level: "model_checking",
-		Rule:      "(identity) names {m, 'm:a=1', ''} x all 28 tag maps with <=3 tags over keys {a,b,c} and values {1,2} (plus nil and empty) x {counter, gauge, histogram, timer}: the metric is requested twice under EVERY assignment of iteration orders to the tag-map range points of the key computation (full DFS over the choice tree, all n! orders per point); both requests must return the same pointer, both events must land in it, GetAllMetrics must list one series. (monitor) every sequence of <=3 (quick) / <=4 (thorough) calls of RecordDatabaseOperation(load ok / load failed / save ok) and RecordSearchOperation(hit / miss / a hit that took no time and found nothing) and a load recorded with a negative duration, under every order assignment (cap 3000 schedules per sequence, reported): per-identity and total counts in the report equal the operations recorded, one series per identity. (accounting) every sequence of 4 (quick) / 5 (thorough) operations over {Inc, Add(3), Observe(0.125|0.0004|1.005|7|20000: binary fractions, values below and not a multiple of 1/1000, above the last bucket), Set(2.5), Reset}: counter, histogram count / exact sum / mean, gauge, percentile monotonicity and GetAllMetrics after every step. (concurrent) the collector scenarios of the schedule explorer: two goroutines creating the same new series + a third observing and listing (S5), three goroutines incrementing one counter / gauge (S9) under every interleaving with <=2 preemptions, monitored searches (S4) with <=1: same pointer, no lost increment, one series. states = cases; transitions = executions under distinct order assignments / schedules",
+		Rule:      "(identity) names {m, 'm:a=1', ''} x all 28 tag maps with <=3 tags over keys {a,b,c} and values {1,2} (plus nil and empty) x {counter, gauge, histogram, timer}: the metric is requested twice under EVERY assignment of iteration orders to the tag-map range points of the key computation (full DFS over the choice tree, all n! orders per point); both requests must return the same pointer, both events must land in it, GetAllMetrics must list one series. (monitor) every sequence of <=3 (quick) / <=5 (thorough) calls of RecordDatabaseOperation(load ok / load failed / save ok) and RecordSearchOperation(hit / miss / a hit that took no time and found nothing) and a load recorded with a negative duration, under every order assignment (cap 3000 schedules per sequence, reported): per-identity and total counts in the report equal the operations recorded, one series per identity. (accounting) every sequence of 4 (quick) / 6 (thorough) operations over {Inc, Add(3), Observe(0.125|0.0004|1.005|7|20000: binary fractions, values below and not a multiple of 1/1000, above the last bucket), Set(2.5), Reset}: counter, histogram count / exact sum / mean, gauge, percentile monotonicity and GetAllMetrics after every step. (concurrent) the collector scenarios of the schedule explorer: two goroutines creating the same new series + a third observing and listing (S5), three goroutines incrementing one counter / gauge (S9) under every interleaving with <=2 preemptions, monitored searches (S4) with <=1: same pointer, no lost increment, one series. states = cases; transitions = executions under distinct order assignments / schedules",
 		Assume:    []string{"only map ranges inside internal/metrics are explored here; dyadic observation values make the exact sum order-independent", "scheduling points = sync / atomic operations (build overlay shims); deeper bounds of the same scenarios run under C11"},
 		QuickSecs: 120, ThorSecs: 900, Graph: true,
 		Run: c18Run,
